@@ -169,7 +169,7 @@ class Env(dict):
 
 def _walk_own(fn):
     """nodes of a function body without entering nested functions/lambdas/classes"""
-    todo = list(fn.body)
+    todo = [st for st in fn.body if not isinstance(st, (ast.FunctionDef, ast.AsyncFunctionDef, ast.ClassDef))]
     while todo:
         n = todo.pop()
         yield n
@@ -205,7 +205,8 @@ class Interp:
         if key not in Interp._SYNTH:
             c = self.mod.classes[name]
             bases = tuple(_TYPES.get(lit_name(b), object) for b in c.bases) or (object,)
-            if any(isinstance(st, ast.FunctionDef) for st in c.body):
+            is_dc0 = any((isinstance(d_, ast.Name) and d_.id == "dataclass") or (isinstance(d_, ast.Attribute) and d_.attr == "dataclass") or (isinstance(d_, ast.Call) and lit_name(d_.func) in ("dataclass", "dataclasses.dataclass")) for d_ in c.decorator_list)
+            if any(isinstance(st, ast.FunctionDef) for st in c.body) and not (is_dc0 and bases == (object,) and len(c.decorator_list) == 1 and not c.keywords):
                 # a plain class with methods: instances are checker-side records whose methods are the class's functions of
                 # this module; the class body's attributes are evaluated once (as at import) and shared by every instance
                 # and every later evaluation in this process - exactly the sharing Python gives them
@@ -267,7 +268,8 @@ class Interp:
                             if d_[0] == "required":
                                 raise TypeError(n_)
                             setattr(obj, n_, {"list": list, "set": set, "dict": dict}.get(d_[1], list)() if d_[0] == "factory" else d_[1])
-                Interp._SYNTH[key] = type(name, (Synth,), {"__init__": __init__, "__dl_record__": True, "__repr__": lambda o_, _fl=fl, _n=name: f"{_n}({', '.join(f'{f_[0]}={getattr(o_, f_[0], None)!r}' for f_ in _fl)})"})
+                extra_ = {"__dl_class__": name, "__dl_plain__": True} if any(isinstance(st, ast.FunctionDef) for st in c.body) else {}
+                Interp._SYNTH[key] = type(name, (Synth,), {"__init__": __init__, "__dl_record__": True, "__repr__": lambda o_, _fl=fl, _n=name: f"{_n}({', '.join(f'{f_[0]}={getattr(o_, f_[0], None)!r}' for f_ in _fl)})", **extra_})
                 return Interp._SYNTH[key]
             Interp._SYNTH[key] = type(name, bases, {})
         return Interp._SYNTH[key]
@@ -611,13 +613,12 @@ class Interp:
                     return type(v)(v) if isinstance(v, (dict, list, set)) else v
                 try:
                     v = _real(lit.ev(self.mod.consts[n.id], self.mod))
-                    _CONST_CACHE[ck] = v
-                    return type(v)(v) if isinstance(v, (dict, list, set)) else v
                 except lit.NotLiteral:
                     # module-level dict comprehension etc.: evaluate with the interpreter itself
                     v = self.expr(self.mod.consts[n.id], {})
-                    _CONST_CACHE[ck] = v
-                    return type(v)(v) if isinstance(v, (dict, list, set)) else v
+                v = self._module_level_updates(n.id, v)
+                _CONST_CACHE[ck] = v
+                return type(v)(v) if isinstance(v, (dict, list, set)) else v
             if n.id in self.mod.funcs:
                 return self.mod.funcs[n.id]
             if n.id in _TYPES:
@@ -1034,28 +1035,66 @@ class Interp:
             if name in _EXC:
                 return Raised(name, "", n)
             if name in self.mod.classes and name not in env:
-                klass = self._synth_class(name)
-                if getattr(klass, "__dl_plain__", False):
-                    obj = klass()
-                    init = self.mod.funcs.get(f"{name}.__init__")
-                    if init is not None:
-                        self._call(init, [obj] + list(args), kwargs)
-                    elif args or kwargs:
-                        raise Raised("TypeError", "", n)
-                    return obj
-                try:
-                    return klass(*args, **kwargs)
-                except TypeError:
-                    raise Raised("TypeError", "", n)
+                return self._instantiate(self._synth_class(name), args, kwargs, n)
             if name in self.extra and isinstance(self.extra[name], type):
                 try:
                     return self.extra[name](*args, **kwargs)
                 except TypeError:
                     raise Raised("TypeError", "", n)
+            if isinstance(target, type) and (issubclass(target, (Synth, tuple)) or any(target is v_ for v_ in self.extra.values())):
+                return self._instantiate(target, args, kwargs, n)     # a class held in a variable (`node_type(name=...)`)
             raise Unsupported(f"call to {name}")
         if not isinstance(f, (ast.Name, ast.Attribute)):
             return self.call_value(self.expr(f, env), args, kwargs, n)
         raise Unsupported("call form")
+
+    def _module_level_updates(self, name, v):
+        """module-level statements that complete a table after its assignment (`T.update(...)`, `T[k] = v`, `T += [...]`) are
+        applied in source order, as the import of the module does"""
+        if not isinstance(v, (dict, list, set)):
+            return v
+        tree = getattr(self.mod, "tree", None)
+        if tree is None:
+            return v
+        started = False
+        env = None
+        for st in tree.body:
+            tg = st.targets if isinstance(st, ast.Assign) else [st.target] if isinstance(st, (ast.AnnAssign, ast.AugAssign)) else []
+            if not started:
+                if any(isinstance(t, ast.Name) and t.id == name for t in tg) and not isinstance(st, ast.AugAssign):
+                    started = True
+                continue
+            hit = False
+            if isinstance(st, ast.Expr) and isinstance(st.value, ast.Call) and isinstance(st.value.func, ast.Attribute) and isinstance(st.value.func.value, ast.Name) and st.value.func.value.id == name:
+                hit = True
+            elif isinstance(st, ast.Assign) and any(isinstance(t, ast.Subscript) and isinstance(t.value, ast.Name) and t.value.id == name for t in st.targets):
+                hit = True
+            elif isinstance(st, ast.AugAssign) and isinstance(st.target, ast.Name) and st.target.id == name:
+                hit = True
+            elif isinstance(st, ast.Assign) and any(isinstance(t, ast.Name) and t.id == name for t in st.targets):
+                break           # re-bound: the later binding is what mod.consts holds already
+            if hit:
+                if env is None:
+                    env = Env(None)
+                    v = type(v)(v)
+                    dict.__setitem__(env, name, v)
+                self._stmt(st, env)
+                v = env[name]
+        return v
+
+    def _instantiate(self, klass, args, kwargs, n=None):
+        if getattr(klass, "__dl_plain__", False) and not getattr(klass, "__dl_record__", False):
+            obj = klass()
+            init = self.mod.funcs.get(f"{klass.__dl_class__}.__init__")
+            if init is not None:
+                self._call(init, [obj] + list(args), kwargs)
+            elif args or kwargs:
+                raise Raised("TypeError", "", n)
+            return obj
+        try:
+            return klass(*args, **(kwargs or {}))
+        except TypeError:
+            raise Raised("TypeError", "", n)
 
     def call_value(self, target, args, kwargs, n=None):
         """call a value the analysed code holds (a closure, a module function kept in a table, a pure library function, a type)"""
@@ -1066,7 +1105,9 @@ class Interp:
             return self._call(target, list(args), dict(kwargs or {}))
         if callable(target) and getattr(target, "_dl_lambda", False):
             return target(*args)
-        if isinstance(target, type) and (target in _TYPES.values() or issubclass(target, (Synth, tuple))):
+        if isinstance(target, type) and issubclass(target, Synth):
+            return self._instantiate(target, list(args), dict(kwargs or {}), n)
+        if isinstance(target, type) and (target in _TYPES.values() or issubclass(target, tuple) or any(target is v_ for v_ in self.extra.values())):
             try:
                 return target(*args, **(kwargs or {}))
             except (ValueError, TypeError, OverflowError) as e:
